@@ -7,6 +7,7 @@ import (
 	"fmt"
 	"io"
 	"net"
+	"strings"
 	"testing/synctest"
 	"time"
 
@@ -51,7 +52,7 @@ func c13ExecHostile(run *simkit.Run) {
 		w.nw.Intercept = func(string, string, []byte) bool { return true }
 		w.closeAll()
 	}()
-	if run.Failed() {
+	if run.Stop() {
 		return
 	}
 	for _, nd := range w.nodes {
@@ -108,7 +109,7 @@ func c13ExecHostile(run *simkit.Run) {
 	}
 	target := func(a int) *h1Node { return w.nodes[a%len(w.nodes)] }
 	for i, op := range c.Script {
-		if run.Failed() {
+		if run.Stop() {
 			break
 		}
 		run.Step = i
@@ -244,6 +245,11 @@ func c13ExecHostile(run *simkit.Run) {
 			synctest.Wait()
 			alive(nd, fmt.Sprintf("a delta announcing %d entries", cnt))
 		case "stream":
+			if op.C%9 == 8 {
+				w.stalledReader(nd)
+				alive(nd, "a peer that never reads the join reply")
+				continue
+			}
 			w.hostileStream(nd, op.C%8, rng)
 			alive(nd, "a hostile stream")
 		}
@@ -253,6 +259,42 @@ func c13ExecHostile(run *simkit.Run) {
 		run.Probe("nontrivial")
 	}
 	run.Summary = fmt.Sprintf("hostile nodes=%d max_packet=%d ops=%d first=%v", len(w.nodes), c.Int("max_packet"), len(c.Script), firstOps(c.Script, 5))
+}
+
+// stalledReader: a peer sends a well-formed join and then never reads the
+// reply, over a connection whose buffers are smaller than the reply. The node
+// must give up at the stream timeout instead of blocking in the write.
+func (w *h1World) stalledReader(nd *h1Node) {
+	run := w.run
+	run.Probe("c13.hostile_inputs")
+	run.Fault("hostile_stalled_reader")
+	// make sure the reply is larger than the connection's buffers
+	for i := 0; i < 40; i++ {
+		w.opUpsert(nd, fmt.Sprintf("big%d", i), strings.Repeat("v", 200))
+	}
+	cfg := w.nw.Config()
+	old := cfg.Window
+	cfg.Window = 512
+	defer func() { cfg.Window = old }()
+	conn, err := simnet.Dial("tcp", nd.addr)
+	if err != nil {
+		run.Fail("C13.no-hang", "stream-listener-dead", "n%d refuses stream connections: %v", nd.idx, err)
+		return
+	}
+	defer conn.Close()
+	var jb bytes.Buffer
+	jb.WriteByte(byte(messageTypeJoin))
+	jb.WriteByte(supportedVersion)
+	enc := newEncoder(&jb)
+	_ = enc.Encode(&joinHeader{NodeID: "probe", Addr: "10.0.0.99:8003"})
+	_ = enc.Encode(delta{})
+	_ = enc.Encode(digest{})
+	_, _ = conn.Write(jb.Bytes())
+	time.Sleep(streamTimeout + 2*time.Second)
+	if sc, ok := conn.(*simnet.Conn); ok && !sc.PeerClosed() {
+		run.Fail("C13.no-hang", "stalled-stream-not-dropped", "n%d is still holding a stream whose peer stopped reading the join reply %v ago (stream timeout %v)", nd.idx, streamTimeout+2*time.Second, streamTimeout)
+	}
+	run.Probe("c13.stalled_reader_checked")
 }
 
 // hostileStream opens a stream to the node's gossip port and misbehaves; the
@@ -365,7 +407,7 @@ func init() {
 	}})
 	free := func(p string) { // properties served by driven + free-running families
 		d, f := h1GenDriven(p), h1GenFree(p)
-		every := map[string]int{"C03": 4, "C11": 2, "C02": 5, "C14": 4}[p]
+		every := map[string]int{"C03": 4, "C11": 2, "C02": 5, "C14": 3}[p]
 		simkit.Register(&simkit.Prop{ID: p, Exec: func(run *simkit.Run) {
 			if run.Case.Family == "h1.free" {
 				h1ExecFree(run)
